@@ -122,6 +122,21 @@ def coq_table(t):
         "mkcol %s %s %s" % (cz(cid_of(n)), DT_COQ[dt], clist(coq_cell(c) for c in cells)) for n, (dt, cells) in cols))
 
 
+def is_fz_change(before, after):
+    """exactly the class of finding F-Z: an int64 of magnitude above 2^53 replaced by the nearest double (held as
+    float64, or cast back to int64)"""
+    if before[0] != "I" or abs(before[1]) <= TWO53:
+        return False
+    rz = int(float(before[1]))
+    return tuple(after) in (("I", rz), ("F", 2 * rz))
+
+
+def pyeq(a, b):
+    """Python == on the cells of an object column: True == 1 == 1.0 (what Series.equals uses there)"""
+    num = lambda c: {"B": 2 * c[1], "I": 2 * c[1], "F": c[1]}.get(c[0]) if c[0] in "BIF" else None
+    return a == b or (num(a) is not None and num(a) == num(b))
+
+
 def veq(a, b):
     """same value up to the int64/float64 representation"""
     if a == b:
@@ -755,23 +770,37 @@ class Run:
             else:
                 cast = ud != bd
                 if cast and ud != self.home.get(c, bd):
-                    return self.fail(f"{label}: while adding simulants, dtype {ud} accepted into column {c} whose dtype "
-                                     f"before the creation was {self.home.get(c, bd)} (now {bd})", fl=True)
+                    # the F-L class: the whole column was cast to a foreign dtype; the other columns are still checked
+                    self.fail(f"{label}: while adding simulants, dtype {ud} accepted into column {c} whose dtype "
+                              f"before the creation was {self.home.get(c, bd)} (now {bd})", fl=True)
+                    continue
                 if ad != ud:
-                    return self.fail(f"{label}: dtype of column {c} after the update is {ad}, update had {ud}", fl=cast)
+                    if not cast:
+                        return self.fail(f"{label}: dtype of column {c} after the update is {ad}, update had {ud}")
+                    self.fail(f"{label}: dtype of column {c} after the update is {ad}, update had {ud}", fl=True)
+                    continue
                 if self.creation is not None and not cast:
                     # C13: values an existing simulant already has must be repeated exactly or the update refused
                     for l in range(min(self.creation["n_before"], n)):
-                        if bc[l] != ("N",) and not veq(ac[l], bc[l]):
+                        if bc[l] != ("N",) and not veq(ac[l], bc[l]) and not (bd == "obj" and pyeq(ac[l], bc[l])):
                             return self.fail(f"{label}: an initializer's update changed existing simulant {l}, column {c}: "
                                              f"{bc[l]} -> {ac[l]} and was not refused")
+                noted = False
                 for l in range(n):
                     e = supplied[c].get(l, bc[l])
-                    if not (ac[l] == e or ac[l] in allsup[c].get(l, []) or (cast and veq(ac[l], e))):
-                        mag = abs(e[1]) if e[0] == "I" else (abs(e[1]) // 2 if e[0] == "F" else 0)
-                        big = cast and ud == self.home.get(c, bd) == "int" and mag > TWO53
-                        return self.fail(f"{label}: cell [{l},{c}] is {ac[l]}, expected {e} "
-                                         f"({'supplied' if l in supplied[c] else 'not addressed'})", fl=cast and not big, fs=big)
+                    if ac[l] == e or ac[l] in allsup[c].get(l, []) or (cast and veq(ac[l], e)):
+                        continue
+                    m = (f"{label}: cell [{l},{c}] is {ac[l]}, expected {e} "
+                         f"({'supplied' if l in supplied[c] else 'not addressed'})")
+                    if not cast:
+                        return self.fail(m)
+                    if ud == self.home.get(c, bd) == "int" and is_fz_change(e, ac[l]):
+                        if not noted:
+                            self.fail(m, fs=True)            # F-Z: the nearest double came back; keep scanning
+                            noted = True
+                        continue
+                    self.fail(m, fl=True)                    # F-L: the whole-column cast changed a value
+                    break
 
     # ---- creations ----
     def on_init(self, j, pop_data):
@@ -814,10 +843,15 @@ class Run:
             ad, ac = t["cols"][c]
             if ad not in (bd, PROMOTE.get(bd, bd)):
                 return self.fail(f"creation: dtype of {c} became {ad} (was {bd})")
+            noted = False
             for l in range(n0):
                 if not veq(ac[l], bc[l]):
-                    big = bc[l][0] == "I" and abs(bc[l][1]) > TWO53
-                    return self.fail(f"creation itself changed existing simulant {l}, column {c}: {bc[l]} -> {ac[l]}", fs=big)
+                    m = f"creation itself changed existing simulant {l}, column {c}: {bc[l]} -> {ac[l]}"
+                    if not is_fz_change(bc[l], ac[l]):
+                        return self.fail(m)
+                    if not noted:
+                        self.fail(m, fs=True)                # F-Z; every other cell is still checked
+                        noted = True
             for l in range(n0, n0 + cnt):
                 if c != "tracked" and ac[l] != ("N",):
                     return self.fail(f"creation: new simulant {l} starts with a value in column {c}: {ac[l]}")
@@ -1342,10 +1376,13 @@ def second_hash_seed(run, prop):
         return
     from core import VERIF
     with tempfile.TemporaryDirectory(prefix="verif_pop_") as tmp:
+        sub = f"{prop}_hs7_{os.getpid()}"            # own directory: concurrent runs must not share generated files
         env = dict(os.environ, VERIF_HASHSEED="7", PYTHONHASHSEED="7", VERIF_POP_NESTED="1", VERIF_EVIDENCE_DIR=tmp,
-                   VERIF_GEN_SUBDIR=f"{prop}_hs7", VERIF_SEED=str(run.seed + 1), VERIF_SKIP_MAKE="1")
+                   VERIF_GEN_SUBDIR=sub, VERIF_SEED=str(run.seed + 1), VERIF_SKIP_MAKE="1")
         p = subprocess.run([sys.executable, os.path.join(VERIF, "check"), prop, "--tier", "quick"], capture_output=True,
                            text=True, env=env, cwd=VERIF)
+        import shutil
+        shutil.rmtree(os.path.join(VERIF, "coq", "generated", sub), ignore_errors=True)
     run.obligation(f"{prop} quick check under PYTHONHASHSEED=7 (fresh interpreter) exits 0", p.returncode == 0,
                    (p.stdout + p.stderr)[-1500:])
 
@@ -1432,9 +1469,10 @@ def run_edge(case):
             for l in range(n):
                 if not veq(ac[l], bc[l]):
                     m = f"{what}: existing simulant {l}, column {c}: {bc[l]} -> {ac[l]}"
-                    if bc[l][0] == "I" and abs(bc[l][1]) > TWO53:
-                        return fz.append("[big-int class] " + m)          # finding F-Z
-                    return fail(m)
+                    if is_fz_change(bc[l], ac[l]):
+                        fz.append("[big-int class] " + m)                 # finding F-Z; every other cell is still checked
+                    else:
+                        return fail(m)
 
     fz = []
     setup_exc = None
